@@ -13,7 +13,7 @@ def mc(run, name, algs, cset, starts, lims, workers, timeout):
     consts['Algs <- ' + algs] = None
     body = vlib.cfg(constants=dict(ctlfam.BUGS, ProbeX="100000"), invariants=INV + ['C04_SteadyEnds'], properties=PROP)
     body = body.replace('CONSTANTS\n', 'CONSTANTS\n  Algs <- %s\n  CSet %s\n  StartSet %s\n  Lims <- %s\n' % (algs, cset, starts, lims))
-    return run.model_check('MC_C04', body, name, workers=workers, timeout=timeout, heap='12g')
+    return run.model_check('MC_C04', body, name, workers=workers, timeout=timeout, heap='9g')
 
 
 def check(run):
@@ -27,7 +27,7 @@ def check(run):
         for dt, cs in [(50, '{77}'), (100, '{128}'), (200, '{0, 77, 255}'), (500, '{33, 200}'),
                        (1000, '{77, 254}'), (2000, '{1, 128}')]:
             jobs.append(('c04_pid%d' % dt, 'AlgsPid%d' % dt, '= ' + cs, '= {0, 255}', 'LimsOne', 4))
-    with cf.ThreadPoolExecutor(max_workers=2 if q else 4) as ex:
+    with cf.ThreadPoolExecutor(max_workers=2 if q else 3) as ex:      # (memory: at most 3 x 9 GB heaps)
         futs = [ex.submit(mc, run, j[0], j[1], j[2], j[3], j[4], j[5], run.pick(900, 3 * 3600)) for j in jobs]
         for f in futs:
             f.result()
